@@ -162,9 +162,12 @@ def build_op(ctx, rng, x, allow_rank_change=True):
         seed = rng.getrandbits(40)
         import random as _r
 
+        mixclass = sym != "Z4" and rng.random() < 0.2  # partner of the OTHER class family (static <-> generic), same symmetry
+
         def partner(a):
             r2 = _r.Random(seed)
-            return gen.make_array(sr, r2, sym, a.indices, charge=a.charge, fermionic=True, kind="static" if type(a).static_symmetry else "generic_str", values=gen.Values(r2, "int"), label=[o for o in a.oddpos] or None, nphase=2, sparsity=0.3)
+            st_ = bool(type(a).static_symmetry) != mixclass
+            return gen.make_array(sr, r2, sym, a.indices, charge=a.charge, fermionic=True, kind="static" if st_ else "generic_str", values=gen.Values(r2, "int"), label=[o for o in a.oddpos] or None, nphase=2, sparsity=0.3)
 
         if name == "add_partner":
             return name, (lambda a: (a + partner(a), partner(a) + a)), None
@@ -198,10 +201,13 @@ def build_op(ctx, rng, x, allow_rank_change=True):
         left = rng.random() < 0.5 and name != "matmul_partner"
         import random as _r
 
+        mixclass2 = sym != "Z4" and rng.random() < 0.2
+
         def partner(a):
             r2 = _r.Random(seed)
             ib = [gen.conj_index(sr, a.indices[i]) for i in axa] + [gen.rand_index(sr, r2, sym, maxd=2) for _ in range(r2.randint(0, 1 if name == "matmul_partner" else 2))]
-            return gen.make_array(sr, r2, sym, ib, fermionic=True, kind="static" if type(a).static_symmetry else "generic_str", values=gen.Values(r2, "int"), label=plabel, nphase=2, sparsity=0.2)
+            st_ = bool(type(a).static_symmetry) != mixclass2
+            return gen.make_array(sr, r2, sym, ib, fermionic=True, kind="static" if st_ else "generic_str", values=gen.Values(r2, "int"), label=plabel, nphase=2, sparsity=0.2)
 
         if name == "matmul_partner":
             return name, (lambda a: a @ partner(a)), None
